@@ -28,8 +28,23 @@ class NanVal:
         return NanVal(self.v, z3.Or(self.nan, cond))
 
 
+NARROWED = []
+
+
 class SymArray(real_np.ndarray):
-    """object ndarray of NanVal whose (boolean-mask) assignment of NaN accepts SB masks, also inside tuple keys"""
+    """object ndarray of NanVal whose (boolean-mask) assignment of NaN accepts SB masks, also inside tuple keys; a cast of the
+    pixel values to a float type narrower than float64 is recorded (the symbolic pixels stand for double-precision data)"""
+    def astype(self, dtype, *a, **k):
+        try:
+            dt = real_np.dtype(dtype)
+        except TypeError:
+            return self
+        if dt.kind == 'f' and dt.itemsize < 8:
+            NARROWED.append(dt.name)
+        elif dt.kind in 'iu':
+            NARROWED.append(dt.name)
+        return self
+
     def __setitem__(self, key, val):
         isnanval = isinstance(val, float) and val != val
         keys = key if isinstance(key, tuple) else (key,)
@@ -180,12 +195,14 @@ def h_file(mim, shape, negate):
             load = staticmethod(lambda f: reg)
         saved = (mim.pyfits, mim.pywcs, mim.os, mim.Region)
         mim.pyfits, mim.pywcs, mim.os, mim.Region = FakeFits, FakeWcsMod, FakeOs, FakeRegion
+        del NARROWED[:]
         try:
             mim.mask_file('r.mim', 'in.fits', 'out.fits', negate=negate)
         finally:
             mim.pyfits, mim.pywcs, mim.os, mim.Region = saved
         tag = 'mask_file%s[negate=%d]' % (list(shape), negate)
         c.oblige(tag + ':output written once', z3.BoolVal(len(written) == 1))
+        c.oblige(tag + ':pixel values are not cast to a narrower type (double-precision images keep their values)', z3.BoolVal(not NARROWED), info=str(NARROWED))
         if len(written) != 1:
             return tag
         out = written[0]
@@ -334,7 +351,7 @@ def oracle_file(negate=False, R=12, C=15):
         hdr['CRVAL1'], hdr['CRVAL2'] = 120.0, -35.0
         hdr['CRPIX1'], hdr['CRPIX2'] = C / 2.0, R / 2.0
         hdr['CDELT1'], hdr['CDELT2'] = -4.0 / 60, 4.0 / 60
-        data = real_np.arange(3 * R * C, dtype=float).reshape(3, R, C) + 1
+        data = real_np.arange(3 * R * C, dtype=float).reshape(3, R, C) * 1.000000123 + 1.1      # double precision values that single precision cannot hold
         data[0, 2, 3] = real_np.nan
         data[0, R // 2, C // 2] = real_np.nan
         data[1, 5, 1] = real_np.nan
